@@ -540,6 +540,43 @@ func userTargetsOf(p *spec.Program) map[string]bool {
 // rejectGuard makes the run inconclusive when the compiler rejected more than
 // maxFrac of the intended-valid programs: rejections are not violations of the
 // property, but a monitor that mostly sees rejections has observed too little.
+// rejectedValid judges the rejection of a program that the generator built to be valid. The one rejection the
+// generator can foresee is a poryswitch without a case for the -s value and without '_' (decidable from the
+// program); alsoExpected lists further message fragments a particular workload can foresee. A compiler panic is
+// always reported. Any other rejection is a violation where the property itself implies that the construct
+// compiles (implies = true), and makes the run inconclusive otherwise: a monitor must not call a property
+// "held" next to programs it could not look at.
+func rejectedValid(k *h.Case, prog *spec.Program, res h.Result, implies bool, alsoExpected ...string) {
+	if res.Panic != nil {
+		k.Violation("compiler-panic", fmt.Sprintf("the compiler panics on a program that is valid by construction: %v", res.Panic), map[string]interface{}{"stack": res.Stack})
+		return
+	}
+	msg := res.ErrString()
+	if strings.Contains(msg, "no poryswitch case found") {
+		if _, rerr := spec.Resolve(prog, prog.Switches); rerr != nil || spec.AnyUnmatched(prog, prog.Switches) {
+			return
+		}
+	}
+	for _, e := range alsoExpected {
+		if e != "" && strings.Contains(msg, e) {
+			return
+		}
+	}
+	k.Count("unforeseen_rejections", 1)
+	if implies {
+		k.Violation("valid-program-rejected", fmt.Sprintf("a program that is valid by construction is rejected: %s", msg), nil)
+		return
+	}
+	k.C.Inconclusive("a program that is valid by construction is rejected (%s): the property says nothing about it, but it could not be observed", rejectFamily(msg))
+}
+
+// acceptedUnmatched is called when a program is accepted although a poryswitch on its selected path has neither a
+// case for the -s value nor '_' (property C12 forbids that; the calling check cannot judge such a program).
+func acceptedUnmatched(k *h.Case) {
+	k.Count("accepted_without_selected_case", 1)
+	k.C.Inconclusive("a program was accepted although a poryswitch has no case for the -s value and no '_' (see C12); its output cannot be judged here")
+}
+
 func rejectGuard(ctx *h.Ctx, maxFrac float64) {
 	if ctx.OnlySub != "" {
 		return
